@@ -38,6 +38,13 @@ for _extra in ([], ["-"], ["/"], ["pow"], ["-", "/"], ["-", "pow"], ["/", "pow"]
     FAMILY[_nm] = [["x", "a"], list(U6), ["+", "*"] + _extra]
 
 
+LOGS = [["x", "a"], ["inv", "square", "log_abs", "exp"], ["+", "*", "-"]]
+
+
+def _tag(name, n):
+    return "%s_%s" % (name, n) if isinstance(n, str) else "%s_n%d" % (name, n)
+
+
 def plan(tier):
     S, U = bases.SHIPPED, bases.USER_STYLE
     p = []          # (name, basis, n, sample or None)
@@ -49,6 +56,8 @@ def plan(tier):
         p += [("core_maths", S["core_maths"], 7, 3000)]             # seeded sample of the first complexity at which sums with a cancelling term have 3 summands
         p += [(k, U[k], n, None) for k in U for n in range(1, 6)]
         p += [(k, FAMILY[k], n, None) for k in ("verif_u6", "verif_u6_sub_div_pow") for n in range(1, 5)]
+        # Context[Trigger] trees of RewriteCtx.tla (4..8 nodes): chains of unary operators at every position of a small context
+        p += [("verif_logs", LOGS, "ctx", 5000), ("keep_duplicates", S["keep_duplicates"], "ctx", 4000)]
     else:
         p += [(k, S[k], n, None) for k in S for n in range(1, 7)]
         p += [(k, U[k], n, None) for k in U for n in range(1, 6)]
@@ -57,22 +66,28 @@ def plan(tier):
         p += [("core_maths", S["core_maths"], 7, None), ("ext_maths", S["ext_maths"], 7, 6000)]
         p += [(k, U[k], 6, 3000) for k in U]
         p += [(k, FAMILY[k], 6, 5000) for k in ("verif_u6", "verif_u6_sub_div_pow")]
+        p += [("verif_logs", LOGS, "ctx", None), ("keep_duplicates", S["keep_duplicates"], "ctx", 40000), ("base_e_maths", S["base_e_maths"], "ctx", None),
+              ("ext_maths", S["ext_maths"], "ctx", 30000), ("verif_u6_sub_div_pow", FAMILY["verif_u6_sub_div_pow"], "ctx", 40000)]
     return p
 
 
 def _enumerate(job):
     name, basis, n, sample = job
-    res = tlc.must(tlc.run("Trees", "Trees_label.cfg", constants=bases.tla_consts(basis, n), workers=1, heap="4g"),
-                   "LabelSpec %s n=%d" % (name, n))
+    if n == "ctx":
+        res = tlc.must(tlc.run("RewriteCtx", "RewriteCtx.cfg", constants={"B1": bases.tla_seq(basis[1]), "B2": bases.tla_seq(basis[2]), "ChainMax": "3"},
+                               workers=4, heap="8g"), "RewriteCtx %s" % name)
+    else:
+        res = tlc.must(tlc.run("Trees", "Trees_label.cfg", constants=bases.tla_consts(basis, n), workers=1, heap="4g"),
+                       "LabelSpec %s n=%d" % (name, n))
     if res["violated"]:
-        raise tlc.TLCError("Trees.tla invariant %s violated for %s n=%d (C01's business; C11 needs the enumeration)" % (
+        raise tlc.TLCError("invariant %s violated for %s n=%s (C01's business; C11 needs the enumeration)" % (
             res["violated"], name, n))
     trees = [{"shape": c["shape"], "labels": c["labels"]} for c in res["json"]]
     if len({tuple(t["labels"]) for t in trees}) != len(trees) or not trees:
-        raise tlc.TLCError("LabelSpec %s n=%d: %d trees, not pairwise distinct" % (name, n, len(trees)))
+        raise tlc.TLCError("LabelSpec %s n=%s: %d trees, not pairwise distinct" % (name, n, len(trees)))
     total = len(trees)
     if sample is not None and sample < total:
-        rng = random.Random(evidence.seed() * 1000003 + zlib.crc32(("%s:%d" % (name, n)).encode()))
+        rng = random.Random(evidence.seed() * 1000003 + zlib.crc32(("%s:%s" % (name, n)).encode()))
         trees = [trees[i] for i in sorted(rng.sample(range(total), sample))]
     return job, res, trees, total
 
@@ -268,10 +283,10 @@ def run(tier, replay=None):
         enum = list(ex.map(_enumerate, jobs))
     groups, sampled = [], {}
     for (name, basis, n, sample), res, trees, total in enum:
-        r.add_tlc(res, "label_%s_n%d" % (name, n))
+        r.add_tlc(res, "label_" + _tag(name, n))
         groups.append((name, basis, trees))
         if sample is not None and len(trees) < total:
-            sampled["%s_n%d" % (name, n)] = [len(trees), total]
+            sampled[_tag(name, n)] = [len(trees), total]
 
     # (3) the real driver on every tree, TLC as judge
     per, cases, bad, stats = _check(r, s, groups)
@@ -283,7 +298,7 @@ def run(tier, replay=None):
         dec = sum(1 for o in obs for rw in o["rewrites"] if rw["clsOrig"] == 0 and rw["clsNew"] >= 0)
         fed = sum(1 for o in obs if o["status"] != "suspect")
         r.add("driver", evaluations=fed, nontrivial=nre, traces=fed,
-              **{"%s_n%d" % (name, n): {"trees": len(trees), "with_rewrites": nre, "rewrites": alts, "p1_decided": dec,
+              **{_tag(name, n): {"trees": len(trees), "with_rewrites": nre, "rewrites": alts, "p1_decided": dec,
                                         "not_returned": sum(1 for o in obs if o["status"] not in ("ok", "suspect"))}})
     for want in (("core_maths", 5), ("verif_nosub", 4), ("base_e_maths", 4), ("verif_cube", 4), ("ext_maths", 4)):
         for (name, basis, n, _), obs in zip(jobs, per):
@@ -296,7 +311,8 @@ def run(tier, replay=None):
     r.cov["failing_trees"] = len(bad)
     if sampled:
         r.cov["sampled"] = sampled
-    r.cov["rule"] = ("every labelled tree TLC enumerates for the (basis, n) of the plan (seeded random subset where 'sampled' says so) is "
+    r.cov["rule"] = ("every labelled tree TLC enumerates for the (basis, n) of the plan, and every Context[Trigger] tree of RewriteCtx.tla for the bases marked 'ctx' "
+                     "(seeded random subset where 'sampled' says so), is "
                      "passed to the real find_additional_trees exactly as shape_to_functions passes it; evaluations = trees fed; "
                      "non-trivial = trees for which the driver returned at least one alternative (measured per tree; trees are pairwise "
                      "distinct label lists); every alternative is one record judged by TLC against Rewrite!RewriteOK, every tree one "
